@@ -36,7 +36,8 @@ CHECKS = {
 }
 
 MEMO_NOTE = ('samples configurations and histories (not exhaustive); wrapped callables are deterministic and '
-             'equality-respecting (nine Python signatures incl. float defaults and two required parameters, plus the '
+             'equality-respecting (Python signatures incl. float defaults, two required and nine named parameters, '
+             'partials (one overriding a keyword-only default), method, callable instance, wraps decorator, plus the '
              'builtin max over comparison-logging ints); results are strings, and for a fixed fraction of calls None, '
              "'', 0 or a string of 9 kB / 1.2 MB; argument pools never mix values equal across types; flat keymaps "
              'with variadic signatures only with a sentinel; in-memory archives do not survive a restart')
@@ -53,30 +54,34 @@ for _p, _txt, _orc in [
             'archive; in strict runs (lossless archive attached throughout, graceful restarts, second instances) each '
             'key is evaluated at most once over the whole history; a second decorated function (own decorator, own memory, '
             'own handle) on the same persistent archive is interleaved and must not evaluate a key that is in its memory '
-            'or in the shared archive', 'an evaluation log and the observed memory/archive contents before each call'),
+            'or in the shared archive; float nan arguments (raw keymap, pickled directory archives) are keys unequal to '
+            'their own unpickled copy', 'an evaluation log and the observed memory/archive contents before each call'),
     ('C05', 'after every call len(cache) <= max(maxsize, len before) over histories with bulk load() overfills, '
             'toggles, restarts and dill copies; maxsize 0/None in keyword and positional spelling; purge empties memory '
-            'on overflow of an archived cache', 'the capacity invariant after every call'),
+            'on overflow of an archived cache; storage fault: the archive\'s directory is removed mid-run (later operations '
+            'may fail, the bound must hold)', 'the capacity invariant after every call'),
     ('C06', 'call-only histories from an empty cache (plus raising calls), up to 400 steps with hit bursts that trigger '
             'the LRU queue compaction, caches of 1000+ entries with 10000+ hits between overflows, caches of 30-40 entries (LFU batch > 2) and sweep workloads that tie all use counts: the set leaving memory on each overflow must be exactly what LRU/MRU/LFU/RR '
-            'select according to last-use stamps and use counts kept by the harness', 'an executable policy model (last-use stamps, use counts) after every call'),
+            'select according to last-use stamps and use counts kept by the harness; purge configurations whose archive is '
+            'switched off mid-run (counts restart when a purge empties memory)', 'an executable policy model (last-use stamps, use counts) after every call'),
     ('C07', 'every key leaving memory during a call must be in the attached archive with the same value, no archived '
             'entry may change or vanish, and in strict runs every computed result stays retrievable; in "unenc" runs some '
             'results are refused by every encoding: the call or dump() may fail with the encoder\'s error but must lose '
             'nothing', 'the observed memory/archive contents before and after every call'),
     ('C15', 'info() must equal (hits, misses, loads) classified from the evaluation log and residency before each call, '
             'plus configured maxsize and current size, after every step of histories with clear/load/dump/toggle/'
-            'restart/clone, raising calls and safe fallbacks; calls made through a second function built from the SAME '
+            'restart/clone, raising calls (Exception and BaseException flavours) and safe fallbacks; calls made through a second function built from the SAME '
             'decorator object, and calls of a second instance on the same archive, must not move the counters; runs of '
             'hundreds of hits and a recursive function are accounted exactly', 'counters derived from the evaluation log after every step'),
-    ('C16', 'injected exceptions at seeded calls: the same exception object reaches the caller after one evaluation and '
+    ('C16', 'injected exceptions at seeded calls (Exception or interrupt-like BaseException, a fifth raised `from` an explicit cause): '
+            'the same exception object, with __cause__ and __suppress_context__ as raised, reaches the caller after one evaluation and '
             'info/cache/archive are unchanged; a twin world without those calls must show identical observations at '
             'every other step (exposes corrupted recency/frequency state); safe variants with unhashable/unencodable '
             'arguments evaluate once and return', 'a lock-step twin world that omits the raising calls'),
     ('C18', 'key()/lookup() probes at seeded points (resident, evicted, never seen arguments; ignore and tol/deep '
-            'configurations, float defaults, a builtin that cannot be introspected): key() names the entry a call creates, lookup() returns the resident value or raises '
+            'configurations, float defaults, float subclasses and nested floats under tol, a builtin that cannot be introspected): key() names the entry a call creates, lookup() returns the resident value or raises '
             'KeyError, neither evaluates; a twin world without probes must show identical observations', 'a lock-step twin world without the probes'),
-    ('C20', 'dill round trip of the decorated function at a seeded step: equal cache contents, info and settings at the '
+    ('C20', 'dill round trip of the decorated function at a seeded step (a fifth of the runs with tol and deep rounding): equal cache contents, info and settings at the '
             'round trip; the world continuing with the copy and the world continuing with the original must agree at '
             'every later step (results, resident sets, info); the original is unchanged by what the copy did', 'a lock-step twin world that keeps the original function'),
 ]:
@@ -86,18 +91,20 @@ CHECKS['C13'] = ('crashsim', 'fault_enumeration', '4',
     'per sampled scenario (persistent backend x encoding x prior contents x one mutating operation incl. dump/sync from a '
     'cached handle, merging another archive object, and merely opening; sqlite tables also with 500-1100 history rows) EVERY crash point at file-system/SQL-call granularity is executed - process killed '
     'before each mkdir/open-for-write/raw write/close/unlink/rmdir/rename/DML/commit, plus a partial-write crash for every '
-    'raw write - and a fresh process must read the survivor without error and see old-or-new for touched keys, untouched '
+    'raw write; for the sqlite file archive additionally at EVERY write/sync/truncate/unlink system call the sqlite C '
+    'library issues (native LD_PRELOAD shim, incl. half-written buffers) - and a fresh process must read the survivor without error and see old-or-new for touched keys, untouched '
     'keys unchanged and no foreign key',
     'crash points are exhaustive per scenario, scenarios are sampled; process-kill semantics (no power loss/fsync model); '
-    'sqlite statements/commits atomic at Python-call granularity; .pyc writes of the import system not intercepted',
+    'crash points inside sqlite need a C compiler at check time (otherwise only Python-level points run, reported by a probe); '
+    '.pyc writes of the import system not intercepted',
     'deterministic simulation with fault injection: exhaustive crash-point enumeration (real process death at every '
-    'intercepted mutating fs/SQL call, incl. torn writes) over seeded scenarios, survivor checked by a fresh process '
+    'intercepted mutating fs/SQL call and at every system call inside sqlite, incl. torn writes) over seeded scenarios, survivor checked by a fresh process '
     'against the old-or-new dict model')
 
 CHECKS['C14'] = ('racesim', 'exploration', '4',
     'seeded schedules at file-system/SQL-call granularity over 2-3 real client processes (writer/writer on distinct keys '
-    'via set/update/cache.dump/setdefault, writer/reader, overwriter/reader, deleter/reader, writer/opener, a client that '
-    'discards an absent key and then idles) on dir (all encodings), sqlite-file and single-file archives; the recorded '
+    'via set/update/cache.dump/setdefault, writer/reader, overwriter/reader, deleter/reader, clearer/reader, writer/opener, '
+    'a client that discards an absent key and then idles) on dir (all encodings), sqlite-file and single-file archives; the recorded '
     'invoke/return history is checked: nobody fails, every value read was stored for that key by an overlapping or '
     'preceding write, no never-stored key appears, stable keys are not missed, a single-file reader sees one complete '
     'dictionary that existed, a fresh handle sees every acknowledged write; sqlite busy-waits run on virtual time and a '
@@ -111,7 +118,7 @@ CHECKS['C14'] = ('racesim', 'exploration', '4',
 
 CHECKS['C08'] = ('syncsim', 'exploration', '4',
     'seeded interleavings (5-40 steps) of cache mutations, direct archive mutations, dump/load/sync with and without keys '
-    '(incl. absent keys), archived(on/off), open(other)/drop over every backend incl. null; after each step dict(cache), '
+    '(incl. absent keys), bare key listings of the attached archive, archived(on/off), open(other)/drop over every backend incl. null; after each step dict(cache), '
     'the contents of the attached, parked and replaced archives and archived() are compared with a two-dict model of the '
     'stated algebra',
     'samples interleavings; source-text file archives are driven one rewrite per simulated second (their same-second '
@@ -124,7 +131,8 @@ CHECKS['C17'] = ('sessions', 'exploration', '4',
     'defaults spelled or not, positional vs keyword), optionally an ignore specification and a sibling function (same code '
     'object, other defaults) memoized first; key() of every call must be byte-identical in all sessions and later '
     'sessions must be served by loads without any evaluation, for raw/string/pickle/json/md5/sha1 keymaps x flat x typed x '
-    'sentinel over every persistent backend',
+    'sentinel over every persistent backend; 8% of the chains use the raw keymap with a nine-parameter function (flat keys '
+    'of more than 16 items) on pickled file/dir archives',
     "samples chains; arguments restricted to values whose repr/pickle is process independent; ~0.3 s per exec'd session "
     'bounds the number of chains',
     "deterministic simulation with fault injection: seeded chains of exec'd interpreter sessions (hash seed, process state "
